@@ -23,6 +23,7 @@ type Prog struct {
 	// of the program (signature "<name>: deadlock" ...) unless the body already recorded a failure
 	// or sets x.SetData("allow", "deadlock,horizon").
 	ShardDepth int
+	Delay      int // bound on non-default choices at non-preemptive switch points; 0 = unlimited, n>0 = at most n, -1 = none allowed
 	Seconds    float64 // wall-clock share of this program (0 = whatever is left of the run budget)
 }
 
@@ -66,6 +67,14 @@ func trimStack(s string) string {
 
 // Run explores p and reports into r. It returns the explorer statistics.
 func Run(r *vrun.Run, p Prog) *vsched.Stats {
+	switch {
+	case p.Delay == 0:
+		p.Budget.MaxDelay = -1
+	case p.Delay < 0:
+		p.Budget.MaxDelay = 0
+	default:
+		p.Budget.MaxDelay = p.Delay
+	}
 	e := &vsched.Explorer{Opts: p.Opts, Budget: p.Budget, Body: p.Body, Shard: r.Shard, NShards: r.NShards, ShardDepth: p.ShardDepth}
 	var deadline time.Time
 	if p.Seconds > 0 {
@@ -140,6 +149,6 @@ func Run(r *vrun.Run, p Prog) *vsched.Stats {
 		b = map[string]any{}
 		r.Bounds["programs"] = b
 	}
-	b[p.Name] = map[string]any{"max_preemptions": p.Budget.MaxPreempt, "max_deviations": p.Budget.MaxDev, "completed_preemption_bound": st.CompletedP, "executions": st.Execs, "executions_per_level": st.LevelExecs, "max_choice_points": st.MaxPoints}
+	b[p.Name] = map[string]any{"max_preemptions": p.Budget.MaxPreempt, "max_deviations": p.Budget.MaxDev, "max_delays(-1=unbounded)": p.Budget.MaxDelay, "completed_preemption_bound": st.CompletedP, "executions": st.Execs, "executions_per_level": st.LevelExecs, "max_choice_points": st.MaxPoints}
 	return st
 }
